@@ -54,6 +54,9 @@ class Canon:
         return s
 
 
+_EXTRA_SKIP: set = set()
+
+
 def _walk(o: Any, canon: Canon, seen: Dict[int, int], depth: int) -> Any:
     if o is None or isinstance(o, (bool, int)):
         return o
@@ -102,7 +105,7 @@ def _walk(o: Any, canon: Canon, seen: Dict[int, int], depth: int) -> Any:
         return canon.text(repr(o))
     out = {"cls": tn}
     for k in fields:
-        if k in _SKIP_ATTRS or k.startswith("__"):
+        if k in _SKIP_ATTRS or k in _EXTRA_SKIP or k.startswith("__"):
             continue
         v = fields[k]
         if callable(v) and not hasattr(v, "__dict__"):
@@ -113,8 +116,23 @@ def _walk(o: Any, canon: Canon, seen: Dict[int, int], depth: int) -> Any:
     return out
 
 
-def snapshot(obj: Any, canon: Optional[Canon] = None) -> Any:
-    return _walk(obj, canon or Canon(), {}, 0)
+def snapshot(obj: Any, canon: Optional[Canon] = None, skip=()) -> Any:
+    """`skip`: extra attribute names not to follow (e.g. a node's links to the rest of the network)."""
+    global _EXTRA_SKIP
+    _EXTRA_SKIP = set(skip)
+    try:
+        return _walk(obj, canon or Canon(), {}, 0)
+    finally:
+        _EXTRA_SKIP = set()
+
+
+NODE_ONLY = ("_connected_link", "_connected_node", "airspace")
+
+
+def node_digest(node) -> str:
+    """Digest of one node and everything it owns, not following its links into the rest of the network."""
+    s = json.dumps(snapshot(node, Canon(), skip=NODE_ONLY), sort_keys=True, default=str)
+    return hashlib.sha1(s.encode()).hexdigest()[:12]
 
 
 def digest(obj: Any, canon: Optional[Canon] = None) -> str:
